@@ -41,6 +41,8 @@ type G struct {
 	what        string
 	isMain      bool
 	name        string
+	// locks held: sections under a read lock only run concurrently with each other
+	rlocks, xlocks int
 }
 
 type Chan struct {
@@ -72,6 +74,7 @@ type Sched struct {
 	now      int64
 	timers   []*timer
 	seq      int64
+	anyNext  bool
 	preempts int
 	delays   int
 	hostWG   sync.WaitGroup
@@ -320,6 +323,15 @@ func (s *Sched) waitUntil(g *G, what string, cond func() bool) {
 
 // point is a scheduling point: under the symbolic policy the scheduler may
 // preempt the running goroutine here (bounded number of preemptions).
+// pointAny is point() with a wider choice: any other runnable goroutine may run
+// next, not only the scheduler's next one (used inside read-locked sections, where
+// the partner of a race is a specific goroutine).
+func (s *Sched) pointAny(g *G) {
+	s.anyNext = true
+	s.point(g)
+	s.anyNext = false
+}
+
 func (s *Sched) point(g *G) {
 	cfg := &s.w.ex.Cfg
 	if !cfg.SymSched && cfg.Delays-s.delays > 0 && cfg.DelayPreempt {
@@ -334,11 +346,18 @@ func (s *Sched) point(g *G) {
 		if len(others) == 0 {
 			return
 		}
-		if s.w.path.choose(2) == 0 {
+		pick := 0
+		if s.anyNext {
+			c := s.w.path.choose(1 + len(others))
+			if c == 0 {
+				return
+			}
+			pick = c - 1
+		} else if s.w.path.choose(2) == 0 {
 			return
 		}
 		s.delays++
-		next := others[0]
+		next := others[pick]
 		g.state = gRunnable
 		next.state = gRunning
 		next.ready = nil
